@@ -244,6 +244,16 @@ def cases(seed, tier, model_tuples=None):
                               file=rng.choice(files), parent=rng.choice(["default", "default", "dirname", "none"]))
                 c["name"] = "map/%d/%s/%d" % (pi, kind, rep)
                 out.append(c)
+    # real-world layouts (C09): library files without / with a random original map
+    corpus = sorted(f for f in os.listdir(os.path.join(vlib.VERIF, "corpus")) if f.endswith(".js"))
+    for f in (corpus if tier == "thorough" else rng.sample(corpus, min(16, len(corpus)))):
+        code = open(os.path.join(vlib.VERIF, "corpus", f), encoding="utf-8", errors="replace").read()
+        if "sourceMappingURL" in code:
+            continue
+        c = make_case(rng, code, rng.choice(["none", "inline", "external_rel"]), True, rng.random() < 0.5,
+                      rng.choice(["random", "sparse"]), file="/w/corpus/" + f)
+        c["name"] = "corpus/" + f
+        out.append(c)
     # the full product of reference situations enumerated by TLC from SourceMapReader.tla (MC_Reader)
     for k, t in enumerate(model_tuples or []):
         for pi in (0, 5):
